@@ -15,6 +15,10 @@ Record sa_cfg := { sa_max_rules : nat;       (* MAX_CONTEXT_RULES *)
                    sa_max_policies : nat;    (* MAX_POLICIES *)
                    sa_now : N }.             (* e.ledger().sequence() (constant within a trace) *)
 
+(* the configuration at another ledger sequence number *)
+Definition sa_with_now (c : sa_cfg) (now : N) : sa_cfg :=
+  {| sa_max_rules := sa_max_rules c; sa_max_signers := sa_max_signers c; sa_max_policies := sa_max_policies c; sa_now := now |}.
+
 Inductive signer := Delegated (a : addr) | External (a : addr) (k : N).
 Inductive ctxt := CDefault | CCall (a : addr) | CCreate (h : N).
 
@@ -286,7 +290,8 @@ Inductive sa_query :=
 Inductive sa_ans :=
 | SaRule (r : res rule)
 | SaRules (r : res (list rule))
-| SaNat (n : N).
+| SaNat (n : N)
+| SaTrap.
 Definition sa_answer (s : sa_state) (q : sa_query) : sa_ans :=
   match q with
   | SqRule id => SaRule (sa_get_rule s id)
@@ -298,5 +303,6 @@ Definition sa_ans_eqb (a b : sa_ans) : bool :=
   | SaRule x, SaRule y => res_eqb rule_eqb x y
   | SaRules x, SaRules y => res_eqb (list_eqb rule_eqb) x y
   | SaNat x, SaNat y => N.eqb x y
+  | SaTrap, SaTrap => true
   | _, _ => false
   end.
